@@ -36,7 +36,7 @@ func newUnit(prog *Program, fi *FuncInfo, con *Contract) *Unit {
 		prog: prog, fi: fi, con: con, reg: NewRegistry(),
 		obls: map[string]*Obligation{}, siteOrd: map[ast.Node]string{}, heapSort: map[string]string{},
 		usedContracts: map[string]bool{}, usedExt: map[string]bool{}, havocCalls: map[string]bool{}, unmodelled: map[string]bool{},
-		siteDone: map[ast.Node]bool{},
+		siteDone: map[ast.Node]bool{}, refMapValue: map[string]bool{},
 	}
 	if fi != nil {
 		u.pkg = fi.Pkg
@@ -70,6 +70,19 @@ func (u *Unit) paramVal(st *State, name string, t types.Type) Val {
 		st.assume("(<= " + nm + " " + st.alloc + ")")
 	}
 	u.sliceFacts(st, v)
+	// struct-valued parameter: its reference members are allocated, its slices well-formed
+	if si := u.reg.structInfoOf(srt); si != nil {
+		for _, f := range si.fields {
+			acc := fmt.Sprintf("(%s_%s %s)", srt, sanitize(f.name), nm)
+			if f.sort == "Int" && u.isRefType(f.typ) {
+				st.assume("(>= " + acc + " 0)")
+				st.assume("(<= " + acc + " " + st.alloc + ")")
+			}
+			if u.reg.isSlice(f.sort) {
+				st.assume("(>= (len_" + f.sort + " " + acc + ") 0)")
+			}
+		}
+	}
 	return v
 }
 
